@@ -697,7 +697,10 @@ def c01(tier):
     return broker_check("C01", tier, [("RoutingSpec", "cover", 3, 4, "mockSuccess"), ("RoutingSpec", "paths", 2, 3, "mockSuccess"), ("RoutingSpec", "paths", 2, 2, "mockSuccess", 1)], {"C01"},
                         "Broker specification, configuration routing: 2 network clients + 1 in-process subscriber, filters {a/b,a/+,a/#,#,+/b}, names "
                         "{a/b,a,a/b/c,c}, publish QoS x granted QoS in {0,1,2}^2, payloads tiny/empty/big; transition cover and all paths; after every "
-                        "step the PUBLISH packets on every connection (topic, payload bytes, QoS, retain flag) are compared with the specification's bag.")
+                        "step the PUBLISH packets on every connection (topic, payload bytes, QoS, retain flag) are compared with the specification's bag. "
+                        "Concurrent part: recorded runs with several raw publishers and two concurrent Server.Publish goroutines towards different subscriber "
+                        "sets, validated by TLC against OutStreamTrace (every subscriber gets every message of every publisher it is subscribed to, in order, and nothing else).",
+                        extra=lambda v: fanin_validate(v, "C01", tier))
 
 
 def q2many(v, tier):
@@ -936,7 +939,7 @@ def c05(tier):
 OUTSTREAM_CFG = """SPECIFICATION Spec
 CONSTANTS
  Conns = {"s0", "s1", "s2", "p0", "p1", "p2", "p3", "p4", "rw", "rs"}
- Pubs = {0, 1, 2, 3, 4, 7}
+ Pubs = {0, 1, 2, 3, 4, 7, 8}
 INVARIANTS Report
 POSTCONDITION Accepted
 """
@@ -980,7 +983,7 @@ def fanin_validate(v, pid, tier):
     if not ok:
         ev = lines[matched - 1] if 0 < matched <= len(lines) else "?"
         kind = json.loads(ev).get("e") if ev != "?" else "?"
-        owner = "C08" if kind in ("got", "put") else "C17"
+        owner = "C08" if kind in ("got", "put") else ("C01" if pid == "C01" else "C17")
         lo = max(0, matched - 8)
         m = {"what": "recorded run rejected by OutStreamTrace at event %d (%s): %s" % (matched, why, ev),
              "tag": owner, "replay": {"seed": core.seed(), "events": lines[lo:matched + 1]}}
